@@ -66,6 +66,21 @@ def analyse(db):
     return rows, skipped, aff
 
 
+def readings_agree(ctx, T, a, row, form):
+    """a composed amount describes itself twice - category by category (GetCategoryToUnitAndExps) and unit by unit with the
+    exponents of one unit joined (GetComposingUnitsJoiningExponents, what its unit string is written from): both readings
+    are the same amount, also where two categories of the amount are held in one unit"""
+    ctx.ev()
+    ctx.count("composed amounts read category by category and unit by unit")
+    q = a.GetQuantity()
+    by_cat = dims.scale(T, dims.items_of(q))
+    joined = list(q.GetComposingUnitsJoiningExponents())
+    by_unit = dims.scale(T, [(None, u, e) for u, e in joined])
+    want_vec = dims.unitvec(dims.items_of(q))
+    if by_cat != by_unit or {u: e for u, e in joined if e} != want_vec:
+        ctx.violation("composed-amount-reads-differently-unit-by-unit", {"row": row, "form": form, "composed": repr(a)[:160], "category_by_category": [list(t) for t in dims.items_of(q)], "joined_exponents": joined}, replay={"row": row})
+
+
 def factor_routes(db, qt, u, base):
     """[(route, factor or exception)]: what one unit of the row is in base units (and back), asked in every container."""
     import numpy as np
@@ -184,6 +199,7 @@ def run(ctx):
                             else:
                                 acc = acc * leaf if e > 0 else acc / leaf
                     ctx.ev()
+                    readings_agree(ctx, T, acc, r["unit"], "multiplication")
                     got = dims.basemag(T, acc.GetValue(), dims.items_of(acc.GetQuantity())) * Fr(ref["k"])
                     want = dims.basemag(T, 1.0, [(infos[r["unit"]].quantity_type if False else db.GetDefaultCategory(r["unit"]) or qt, r["unit"], 1)])
                     ratio = float(want / got)
@@ -205,6 +221,7 @@ def run(ctx):
                     acc2 = num if den is None else ((1.0 / den) if num is None else num / den)
                     ctx.ev()
                     ctx.count("rows composed from powers")
+                    readings_agree(ctx, T, acc2, r["unit"], "powers")
                     got2 = dims.basemag(T, acc2.GetValue(), dims.items_of(acc2.GetQuantity())) * Fr(ref["k"])
                     ratio2 = float(want / got2)
                     if not abs(ratio2 - 1) <= limit:
@@ -235,6 +252,7 @@ def run(ctx):
                                     else:
                                         den = t_ if den is None else den * t_
                             acc3 = num if den is None else ((1.0 / den) if num is None else num / den)
+                            readings_agree(ctx, T, acc3, r["unit"], "parts of parts, " + form)
                             compositions.append((form, acc3, dims.basemag(T, acc3.GetValue() * mult, dims.items_of(acc3.GetQuantity())) * Fr(ref["k"])))
                         ctx.ev()
                         ctx.count("rows composed from the parts of their parts")
@@ -259,6 +277,7 @@ def run(ctx):
                             acc4 = leaf if acc4 is None else acc4 * leaf
                     ctx.ev()
                     ctx.count("rows composed with reciprocal operands")
+                    readings_agree(ctx, T, acc4, r["unit"], "reciprocal operands")
                     got4 = dims.basemag(T, acc4.GetValue(), dims.items_of(acc4.GetQuantity())) * Fr(ref["k"])
                     if not abs(float(got4 / got) - 1) <= 1e-9:
                         ctx.violation("two-compositions-of-the-same-parts-differ", {"row": r["unit"], "by_multiplication": repr(acc), "with_reciprocal_operands": repr(acc4), "ratio": float(got4 / got)}, replay={"row": r["unit"]})
@@ -290,6 +309,7 @@ def run(ctx):
                     for form, a5 in forms5:
                         ctx.ev()
                         ctx.count("rows composed with a unit-less amount on the left")
+                        readings_agree(ctx, T, a5, r["unit"], form)
                         g5 = dims.basemag(T, a5.GetValue(), dims.items_of(a5.GetQuantity())) * Fr(ref["k"])
                         if not abs(float(g5 / got) - 1) <= 1e-9:
                             ctx.violation("two-compositions-of-the-same-parts-differ", {"row": r["unit"], "by_multiplication": repr(acc), form: repr(a5), "ratio": float(g5 / got)}, replay={"row": r["unit"]})
